@@ -241,10 +241,13 @@ func switchThreading(v *VM) *val.Val {
 			v.pc += w
 
 			m := val.Map(ty.(*types.Type).Map()).Map()
+			// 出栈顺序与声明顺序相反, 先还原再按声明顺序写入, 重复 key 以最后声明的为准
+			pairs := make([]*val.Val, 2*sz)
+			for i := 2*sz - 1; i >= 0; i-- {
+				pairs[i] = v.Pop()
+			}
 			for i := 0; i < sz; i++ {
-				vl := v.Pop()
-				key := v.Pop()
-				m.V[key.Key()] = vl
+				m.V[pairs[2*i].Key()] = pairs[2*i+1]
 			}
 			v.Push(m.Vl())
 
